@@ -120,7 +120,7 @@ def build(repo):
                                 f'r.is_some() ==> forall|k: int| 0 <= k < r.unwrap().next_index ==> source@[k] == {ch}'],
                          take_while_count=dict(invariant=[f'forall|k: int| 0 <= k < __n ==> {{E}}@[k] == {ch}']),
                          proofs=[dict(at='body_start', kind='broadcast', text='broadcast use axiom_char_slice_bytes;')]))
-    U.fn(L, 'lex_hex_number', assumed('source', 'String/from_str_radix; Kani harness kani:lexing:hex (bounded)'))
+    U.fn(L, 'lex_hex_number', dict(assumed('source', 'callee contract; body verified in unit hex_number (R20)'), proved_in='hex_number'))
     U.fn(L, 'lex_number', assumed('source', 'str::parse::<f64>: out of reach of both verifiers; NOT checked by anything'))
     U.raw('''
 #[verifier::external_body] pub fn lex_url(source: &[char]) -> (r: Option<FoundToken>) ensures found_ok(source@, r) { unimplemented!() }
